@@ -27,12 +27,23 @@ RULE = ("a case = one history on one configuration (static_set / flat_set over s
         "construction from every sequence of length <= 4 over 0..3 plus random longer ones; flat_set with a STORED "
         "run-time comparator (s constructed ascending, t descending; swap / copy assignment / assigning constructors "
         "change the order of the current set): from every reachable set, after five swap/copy preambles, every call. "
-        "QUICK tier = the boundary-aimed core (about 150k cases): every reachable set x every single call for the "
+        "QUICK tier = the boundary-aimed core (about 230k cases): every reachable set x every single call for the "
         "configurations of QUICK_PLAN, a seeded sample of the call pairs (15% for static_set<less>, 5% for "
         "static_set<half> and flat_set<less>, 0.5% elsewhere), depth <= 3 histories (+10% of depth 4), 100 random "
-        "histories per configuration; THOROUGH tier (about 1M cases) = all configurations x capacity 3 and 4, both build orders, all pairs for "
+        "histories per configuration; THOROUGH tier (about 1.5M cases) = all configurations x capacity 3 and 4, both build orders, all pairs for "
         "static_set<less/half> and flat_set<less> at capacity 3 and 3% of the pairs elsewhere, triples from the nearly full "
-        "static_set<less>, depth <= 4 histories (+10% of depth 5), 2000 random histories per configuration. non-trivial = distinct case line whose history reaches a "
+        "static_set<less>, depth <= 4 histories (+10% of depth 5), 2000 random histories per configuration. "
+        "Added by the review (both tiers): from every reachable set at capacity 3 EVERY hint position begin..end x every key "
+        "(equal / equivalent to the first, last, a middle element; absent in every gap) through emplace_hint and both "
+        "insert(hint, x) overloads named explicitly, plus a later insert of the same key; insert(const&) / insert(&&) named "
+        "explicitly for every key; flat_set::erase(const_iterator) beside erase(iterator); every valid position / index "
+        "pair erased and then a later insertion at the front and at the back; insert(sorted_unique, first, last); the "
+        "stored-comparator family also assigns sets constructed WITH a comparator argument (flat_set(first, last, comp), "
+        "flat_set(sorted_unique, first, last, comp)); containers handed to replace / sorted_unique are sorted under the "
+        "comparator that applies (so the reference leg is defined for greater and for a descending stored comparator too); "
+        "capacity-aware random histories whose every call is inside its domain (reference leg never na; capacity 8 over "
+        "keys -3..8 with 60% starting from 5..8 keys, capacity 4 over 0..5; 120+60 per configuration quick, 1500 thorough); "
+        "at capacity 8 every lookup is asked for every key -3..8. non-trivial = distinct case line whose history reaches a "
         "non-empty set")
 
 TRUSTED_BASE = ["reference leg: libstdc++ 12 std::set / std::multiset with the same comparator, bounded by the capacity "
@@ -50,8 +61,19 @@ def lst(ks):
     return " ".join([str(len(ks))] + [str(k) for k in ks])
 
 
-def alphabet(fam, cap, full=True):
-    """every call of the model's vocabulary with small arguments"""
+def order_for(cmp, ks):
+    if cmp == "greater":
+        return sorted(ks, reverse=True)
+    return sorted(ks)
+
+
+def alphabet(fam, cap, full=True, cmp="less", cur_desc=False):
+    """every call of the model's vocabulary with small arguments.  The containers handed to replace and to the
+    sorted_unique constructors ARE sorted and unique under the comparator that applies (the current one for replace:
+    cmp, or descending when cur_desc; Compare() = cmp for the constructors): what these members do with other
+    input is not part of the property (and not of any theorem), so it is not compared.  cur_desc=None: the current
+    order is not known to the generator (random stored-comparator histories): no replace."""
+    cur = "greater" if (cmp == "greater" or cur_desc) else cmp
     ops = []
     for k in KEYS:
         ops.append(f"i {k}")
@@ -77,15 +99,20 @@ def alphabet(fam, cap, full=True):
     if fam not in STATIC:
         for p in range(cap + 1):
             ops.append(f"epc {p}")   # flat_set::erase(const_iterator); ep calls erase(iterator)
-        ops.append("asui " + lst([0, 2, 4][:cap]))
-        ops.append("asui " + lst([1, 2, 3, 4, 5]))
+        ops.append("asui " + lst(order_for(cmp, [0, 2, 4])[:cap]))
+        ops.append("asui " + lst(order_for(cmp, [0, 2, 4, 6, 8])))   # longer than any exhaustive capacity
         for k in (1, 4):
             ops.append(f"ih 0 {k}")
             ops.append(f"ih {min(cap, 2)} {k}")
         ops.append("x")
-        ops.append("rp " + lst([1, 3]))
-        ops.append("rp " + lst([]))
-        ops.append("asu " + lst([0, 2, 4][:cap]))
+        if cur_desc is not None:
+            ops.append("iru " + lst(order_for(cur, [1, 4])))
+            ops.append("iru " + lst(order_for(cur, [0, 2, 3, 5])))
+            ops.append("iru " + lst([]))
+            ops.append("rp " + lst(order_for(cur, [1, 3])[:cap]))
+            ops.append("rp " + lst(order_for(cur, [0, 2, 5, 7])[:cap]))   # a full container
+            ops.append("rp " + lst([]))
+        ops.append("asu " + lst(order_for(cmp, [0, 2, 4])[:cap]))
         ops.append("ef 0 0")
         ops.append("ef 0 1")
         ops.append("ef 1 3")
@@ -97,14 +124,8 @@ def alphabet(fam, cap, full=True):
         ops.append("asic 1 " + lst([5, 3, 2, 0, 1]))
         ops.append("asuic 1 " + lst([4, 2, 0][:cap]))
         ops.append("asuic 0 " + lst([0, 2, 4][:cap]))
-        ops.append("asuic 1 " + lst([0, 2, 4][:cap]))   # not sorted under the comparator it is handed
+        ops.append("asuic 1 " + lst([5, 4, 3, 1, 0]))   # longer than any exhaustive capacity
     return ops
-
-
-def order_for(cmp, ks):
-    if cmp == "greater":
-        return sorted(ks, reverse=True)
-    return sorted(ks)
 
 
 def reach_prefixes(cap, with_desc):
@@ -232,7 +253,15 @@ def valid_history(fam, cmp, cap, n, rng, universe):
                     fresh.append(x)
             if m.flat and len(fresh) > room:
                 continue
-            seq.append("ir " + lst(ks))
+            if m.flat and rng.random() < 0.5:
+                # insert(sorted_unique, first, last): the range sorted and unique under the current comparator
+                cls = {}
+                for x in ks:
+                    cls.setdefault(ckey(m.cs, x), x)
+                ks = [cls[c] for c in sorted(cls)]
+                seq.append("iru " + lst(ks))
+            else:
+                seq.append("ir " + lst(ks))
             for x in ks:
                 m.insert(x)
         elif r < 0.90:
@@ -336,7 +365,7 @@ def gen(tier, rng):
                     # thorough: all pairs where the quick tier samples 5% or more, 10% elsewhere
                     with_desc = True
                     frac = 1.0 if QUICK_PLAN.get((fam, cmp, cap), (True, 0.0))[1] >= 0.05 else 0.03
-                alpha = alphabet(fam, cap)
+                alpha = alphabet(fam, cap, cmp=cmp)
                 small = alphabet(fam, cap, full=False)
                 for pre, first in reach_prefixes(cap, with_desc):
                     head = f"{fam}_{cmp} {cap} {pre}".rstrip()
@@ -356,7 +385,7 @@ def gen(tier, rng):
     # --- 2c. capacity 0 (static_vector's zero-size storage class): the set is empty AND full
     for fam in FAMS:
         for cmp in CMPS:
-            alpha = alphabet(fam, 0)
+            alpha = alphabet(fam, 0, cmp=cmp)
             head = f"{fam}_{cmp} 0"
             out.append(head)
             for o1 in alpha:
@@ -370,6 +399,8 @@ def gen(tier, rng):
             for cap in (3, 4):
                 if quick and ((fam, cmp, cap) not in QUICK_PLAN or cap == 4):
                     continue
+                if not quick and cap == 4 and not (cmp == "less" and fam in ("ss", "fsv")):
+                    continue
                 out += targeted(fam, cmp, cap, quick)
     for cap in (3,):
         out += [c for c in targeted("fsd", "dyn", cap, quick)]
@@ -380,7 +411,7 @@ def gen(tier, rng):
             for cap, universe in ((8, list(range(-3, 9))), (4 if fam != "fsd" else 3, KEYS)):
                 if cap == 4 and fam in TRACKED and quick:
                     continue
-                for _ in range((120 if cap == 8 else 60) if quick else 2500):
+                for _ in range((120 if cap == 8 else 60) if quick else 1500):
                     seq = valid_history(fam, cmp, cap, rng.randint(4, 16 if cap == 8 else 10), rng, universe)
                     out.append(f"{fam}_{cmp} {cap} " + " ".join(seq))
     # --- 3. all histories from the empty set over the core alphabet (insert / erase of every key, clear, swap)
@@ -403,7 +434,7 @@ def gen(tier, rng):
     for fam in FAMS + TRACKED:
         for cmp in CMPS:
             for cap in ((1, 8) if fam in FAMS else (8,)):
-                alpha = alphabet(fam, cap)
+                alpha = alphabet(fam, cap, cmp=cmp)
                 for k in list(range(-3, 0)) + [6, 7, 8]:
                     alpha += [f"i {k}", f"ek {k}", f"e {k}"]
                 alpha += ["asi " + lst([8, -1, 3, -1, 0, 7, 2, 6, 5, -3]), "ir " + lst([7, -2, 7, 1, 6])]
@@ -416,12 +447,14 @@ def gen(tier, rng):
                     out.append(f"{fam}_{cmp} {cap} " + " ".join(seq))
     # --- 5. flat_set with a STORED comparator: s is constructed ascending, t descending; swap, copy assignment
     #        and the assigning constructors change which comparator orders the current set
+    # which order the current set holds after each preamble (s starts ascending, t descending)
+    mids = {"": False, "sw": True, "sw i 4 i 1 sw": False, "sw i 2 i 5 i 0 sw cp": True, "sw i 3 cp": False}
     for cap in (3, 4):
-        alpha = alphabet("fsd", cap)
         for pre, first in reach_prefixes(cap, cap == 3):
-            for mid in ("", "sw", "sw i 4 i 1 sw", "sw i 2 i 5 i 0 sw cp", "sw i 3 cp"):
+            for mid, desc_now in mids.items():
                 if quick and mid not in (("sw", "sw i 2 i 5 i 0 sw cp", "sw i 3 cp") if cap == 3 else ("sw",)):
                     continue
+                alpha = alphabet("fsd", cap, cur_desc=desc_now)
                 head = f"fsd_dyn {cap} {pre} {mid}".replace("  ", " ").rstrip()
                 out.append(head)
                 for o1 in alpha:
@@ -429,7 +462,7 @@ def gen(tier, rng):
                         continue
                     out.append(f"{head} {o1}")
     for cap in (2, 8):
-        alpha = alphabet("fsd", cap)
+        alpha = alphabet("fsd", cap, cur_desc=None)
         for k in list(range(-3, 0)) + [6, 7, 8]:
             alpha += [f"i {k}", f"ek {k}"]
         ins = [a for a in alpha if a.startswith(("i ", "e ", "ih "))]
